@@ -322,7 +322,7 @@ func externalizeBatchCtx(
 	if config.Compression != nil && config.Compression.Algorithm == "zstd" {
 		level := zstd.SpeedDefault
 		if config.Compression.Level > 0 {
-			level = zstd.EncoderLevel(config.Compression.Level)
+			level = zstd.EncoderLevelFromZstd(config.Compression.Level)
 		}
 		encoder, err := zstd.NewWriter(nil, zstd.WithEncoderLevel(level))
 		if err != nil {
